@@ -41,6 +41,9 @@ def fboolorfloat(value):
     if isinstance(value, np.ndarray) and value.ndim == 0:
         # zero-dimensional array
         value = value.item()
+    if isinstance(value, str) and value.lower() not in ["true", "false"]:
+        # numeric string (e.g. "0.5" from a configuration file)
+        value = float(value)
     # HDF5 attributes are returned as numpy scalars (np.bool_, np.int64)
     if isinstance(value, (str, bool, np.bool_)) or value == 0:
         return fbool(value)
